@@ -71,8 +71,11 @@ type vC11Req struct {
 	cancelAt int // -1 none
 	release  int // -1 none (released at the end)
 	racy     bool
+	late     bool // its context's cancellation signal comes last within the deadline's instant (see vC11LateCtx)
 
 	// run state
+	lctx      *vC11LateCtx
+	lateFired bool
 	mu       sync.Mutex
 	writes   int
 	class    int
@@ -84,6 +87,36 @@ type vC11Req struct {
 	done     chan struct{}
 	start    time.Time
 	endAt    int
+}
+
+// vC11LateCtx is a request context whose timer is late: at the instant of its deadline the clock
+// has reached Deadline() while Err() is still nil and Done() still open, until the driver fires it -
+// after everything else that happens at that instant has settled. It stands for a materialised
+// deadline context whose timer goroutine the scheduler runs last in its turn (the boundary
+// contextutil.EffectiveError exists for). In virtual time nothing moves: a correct reader of the
+// context (EffectiveError) sees the expiry at the deadline's instant either way.
+type vC11LateCtx struct {
+	deadline time.Time
+	mu       sync.Mutex
+	done     chan struct{}
+	err      error
+}
+
+func (c *vC11LateCtx) Deadline() (time.Time, bool) { return c.deadline, true }
+func (c *vC11LateCtx) Done() <-chan struct{}       { return c.done }
+func (c *vC11LateCtx) Value(any) any               { return nil }
+func (c *vC11LateCtx) Err() error {
+	c.mu.Lock()
+	defer c.mu.Unlock()
+	return c.err
+}
+func (c *vC11LateCtx) fire(err error) {
+	c.mu.Lock()
+	if c.err == nil {
+		c.err = err
+		close(c.done)
+	}
+	c.mu.Unlock()
 }
 
 type vC11PTransport struct {
@@ -323,7 +356,69 @@ func vC11GenScenario(r *rand.Rand) *vC11Scenario {
 	// the first arrival after the set-up must be the scripted "first" request
 	// only by chance; that is fine: scripts belong to requests, not roles.
 	sort.SliceStable(sc.events, func(a, b int) bool { return sc.events[a].t < sc.events[b].t })
+	// late timers: only where the order inside the deadline's instant cannot change what the model
+	// computes - the request is never cancelled by its client and no downstream waits on its context
+	for _, rq := range sc.reqs {
+		if rq.cancelAt < 0 && rq.hold != vC11HoldCtx && r.Intn(3) == 0 {
+			rq.late = true
+		}
+	}
 	return sc
+}
+
+// corpus/C11/pipe.json: fixed scenarios of the plain family, replayed first on every run
+type vC11PCorpusReq struct {
+	Name     int     `json:"name"`
+	Arrive   int     `json:"arrive"`
+	Timeout  int     `json:"timeout"`
+	Hold     int     `json:"hold"`
+	Atts     [][]int `json:"atts"` // [code, local]
+	CancelAt int     `json:"cancel_at"`
+	Release  int     `json:"release"`
+	Late     bool    `json:"late"`
+}
+type vC11PCorpusEntry struct {
+	Note string           `json:"note"`
+	Reqs []vC11PCorpusReq `json:"reqs"`
+}
+
+func vC11PCorpus() []*vC11Scenario {
+	dir := os.Getenv("VERIF_CORPUS")
+	if dir == "" {
+		return nil
+	}
+	b, err := os.ReadFile(dir + "/pipe.json")
+	if err != nil {
+		return nil
+	}
+	var es []vC11PCorpusEntry
+	if json.Unmarshal(b, &es) != nil {
+		return nil
+	}
+	var out []*vC11Scenario
+	for _, e := range es {
+		sc := &vC11Scenario{family: 0}
+		for i, q := range e.Reqs {
+			rq := &vC11Req{name: q.Name, arrive: q.Arrive, timeout: q.Timeout, hold: q.Hold, cancelAt: q.CancelAt, release: q.Release,
+				late: q.Late && q.CancelAt < 0 && q.Hold != vC11HoldCtx}
+			for _, a := range q.Atts {
+				if len(a) == 2 {
+					rq.atts = append(rq.atts, vC11Att{a[0], a[1] != 0})
+				}
+			}
+			sc.reqs = append(sc.reqs, rq)
+			sc.events = append(sc.events, vC11Event{rq.arrive, 0, i})
+			if rq.cancelAt >= 0 {
+				sc.events = append(sc.events, vC11Event{rq.cancelAt, 1, i})
+			}
+			if rq.release >= 0 {
+				sc.events = append(sc.events, vC11Event{rq.release, 2, i})
+			}
+		}
+		sort.SliceStable(sc.events, func(a, b int) bool { return sc.events[a].t < sc.events[b].t })
+		out = append(out, sc)
+	}
+	return out
 }
 
 func vC11HoldName(h int) string {
@@ -343,8 +438,12 @@ func TestVerifC11Pipe(t *testing.T) {
 	seed := int64(vC11PEnvInt("VERIF_SEED", 1))
 	n := vC11PEnvInt("VERIF_N", 200)
 	r := rand.New(rand.NewSource(seed*15485863 + 3))
+	corpus := vC11PCorpus()
 	for c := 0; c < n; c++ {
 		sc := vC11GenScenario(r)
+		if c < len(corpus) {
+			sc = corpus[c]
+		}
 		var coqEvents []string
 		var downCalls atomic.Int64
 		goFail := ""
@@ -387,8 +486,43 @@ func TestVerifC11Pipe(t *testing.T) {
 				rq.start = start
 			}
 			now := 0
+			// fire the late contexts whose deadline has been reached, one at a time (earliest
+			// deadline, then lowest index), letting everything settle in between
+			fireLate := func(upTo int) {
+				for {
+					best := -1
+					for i, rq := range sc.reqs {
+						if rq.lctx != nil && !rq.lateFired && rq.arrive+rq.timeout <= upTo &&
+							(best < 0 || rq.arrive+rq.timeout < sc.reqs[best].arrive+sc.reqs[best].timeout) {
+							best = i
+						}
+					}
+					if best < 0 {
+						return
+					}
+					sc.reqs[best].lateFired = true
+					sc.reqs[best].lctx.fire(context.DeadlineExceeded)
+					synctest.Wait()
+				}
+			}
 			sleepTo := func(ms int) {
 				if ms > now {
+					fireLate(now) // the end of the current instant
+					for {
+						next := -1
+						for _, rq := range sc.reqs {
+							if d := rq.arrive + rq.timeout; rq.lctx != nil && !rq.lateFired && d > now && d < ms && (next < 0 || d < next) {
+								next = d
+							}
+						}
+						if next < 0 {
+							break
+						}
+						time.Sleep(start.Add(time.Duration(next) * time.Millisecond).Sub(time.Now()))
+						now = next
+						synctest.Wait()
+						fireLate(next)
+					}
 					time.Sleep(start.Add(time.Duration(ms) * time.Millisecond).Sub(time.Now()))
 					now = ms
 					synctest.Wait()
@@ -405,6 +539,20 @@ func TestVerifC11Pipe(t *testing.T) {
 				msg.Id = uint16(idx + 1)
 				msg.SetEdns0(1232, false)
 				deadline := start.Add(time.Duration(rq.arrive+rq.timeout) * time.Millisecond)
+				if rq.late {
+					cancel()
+					lc := &vC11LateCtx{deadline: deadline, done: make(chan struct{})}
+					rq.lctx = lc
+					rq.cancel = func() { lc.fire(context.Canceled) }
+					go func() {
+						defer close(rq.done)
+						defer func() { rq.endAt = int(time.Since(start) / time.Millisecond) }()
+						ch := middleware.NewChain([]middleware.Handler{cch, down})
+						ch.Reset(&vC11PTransport{rq: rq}, msg)
+						ch.Next(lc)
+					}()
+					return
+				}
 				go func() {
 					defer close(rq.done)
 					defer func() { rq.endAt = int(time.Since(start) / time.Millisecond) }()
@@ -473,7 +621,7 @@ func TestVerifC11Pipe(t *testing.T) {
 			expired := rq.writes > 0 && rq.wtime >= deadline
 			obsCoq = append(obsCoq, fmt.Sprintf("mk_pobs %d %d %v %v %v %d %v %d", rq.writes, rq.class, rq.called.Load(), cancelled, expired, rq.wtime, rq.racy, rq.endAt))
 			desc = append(desc, map[string]any{"i": i, "q": rq.name, "arrive": rq.arrive, "deadline": deadline, "hold": vC11HoldName(rq.hold), "atts": fmt.Sprint(rq.atts),
-				"cancel_at": rq.cancelAt, "release_at": rq.release, "writes": rq.writes, "class": rq.class, "downstream": rq.called.Load(), "written_at": rq.wtime, "returned_at": rq.endAt})
+				"cancel_at": rq.cancelAt, "release_at": rq.release, "late_timer": rq.late, "writes": rq.writes, "class": rq.class, "downstream": rq.called.Load(), "written_at": rq.wtime, "returned_at": rq.endAt})
 			if rq.writes > 1 && goFail == "" {
 				goFail = fmt.Sprintf("request %d: %d writes reached the transport", i, rq.writes)
 			}
